@@ -226,6 +226,22 @@ pub fn exec(case: &Value, tag: &str) -> Value {
             tokens_present = rows.iter().map(|e| e.name.clone()).collect();
         }
         s.close(false).await.ok();
+        if workload == "profiles" {
+            // quiescent state: a profile can be opened iff it is listed (a removed profile can no longer be opened,
+            // whatever interleaving of create / remove / use happened before), and a listed profile is usable
+            if let Ok(names) = backend.list_profiles().await {
+                for p in ["p0", "p1", "p2"] {
+                    let listed = names.iter().any(|n| n == p);
+                    let opened = match backend.session(Some(p.to_string()), false) {
+                        Ok(mut s) => { let r = s.count(None, None, None).await; s.close(false).await.ok(); r.is_ok() }
+                        Err(_) => false,
+                    };
+                    if listed != opened {
+                        sh.fail(json!({"sig": format!("profiles:listed={}:opens={}", listed, opened), "profile": p}));
+                    }
+                }
+            }
+        }
         backend.close().await.ok();
     });
     cleanup(&path);
